@@ -57,6 +57,11 @@ func (s *scanner) Scan(value bytes.Bytes) (*Number, error) {
 		return nil, err
 	}
 
+	if n.nat.Len() == 0 {
+		// Zero has no sign: -0 is the same value as 0.
+		n.neg = false
+	}
+
 	return &n, nil
 }
 
